@@ -44,10 +44,20 @@ pub fn decode_game(s: &mut Stream, gs: &mut Stream, dyadic: bool) -> (Built, boo
     let info = Info::of(&tree);
     let efg = s.bool();
     let (text, names, constant, interior, unnamed) = if efg {
-        let constant = [0.0, 1.0, -1.0, 10.0, 2.5, 0.0][s.below(6)];
+        let mut constant: f64 = [0.0, 1.0, -1.0, 10.0, 2.5, 0.0][s.below(6)];
+        // Splitting inexact payoffs between interior outcomes and leaves, or subtracting them from
+        // a constant, introduces rounding in the file itself; the program's constant-sum test is
+        // relative to player one's payoff range, so such files are only generated when they are
+        // constant-sum beyond doubt.
+        let pays = tree.payoffs();
+        let exact = pays.iter().all(|x| (x * 1048576.0).fract() == 0.0 && x.abs() < 1e9);
+        let range = oracle::payoff_range(&tree);
+        if !exact && !(range > 1e-6 * (constant.abs() + oracle::scale_of(&tree))) {
+            constant = 0.0;
+        }
         let opts = EfgOpts {
             constant,
-            interior: s.bool(),
+            interior: s.bool() && exact,
             share_outcomes: s.bool(),
             unnamed_fraction: [0, 64, 256][s.below(3)],
         };
